@@ -68,10 +68,13 @@ def floors(tier):
     return {"distinct_nontrivial": 500, "cls:nested": 300, "cls:flat": 1000, "cls:body:or": 500, "cls:body:not": 100,
             "cls:zero_solutions": 100, "cls:positional": 100, "cls:nvars=2": 300, "cls:nvars=3": 300,
             "cls:caching_off": 300, "instances_checked": 5000, "cls:f2:const": 100, "cls:f2:call": 50, "cls:special:flatten": 150, "cls:special:preused_as_condition": 150,
-            "cls:rule_variable_with_empty_domain": 100, "cls:preceded_by_an_abandoned_evaluation": 1000}
+            "cls:rule_variable_with_empty_domain": 100, "cls:special:subquery_head_argument": 150, "cls:preceded_by_an_abandoned_evaluation": 1000}
 
 
 def gen_case(rng):
+    if rng.random() < 0.06:
+        return {"subquery_head": True, "world": D.random_world(rng, np_=(2, 4), nq=(2, 5), rich=False), "k": rng.randint(0, 2),
+                "caching": rng.random() < 0.6, "kinds": ["Q", "Q", "P"], "cond": None, "nested": False, "special": None}
     nv = rng.choice([1, 2, 2, 3, 3])
     kinds = [rng.choice("PQ") for _ in range(nv)]
     world = D.random_world(rng, np_=(1, 4), nq=(1, 4))
@@ -229,7 +232,53 @@ def run(case, world, caching, times=1, tags=()):
         enable_caching()
 
 
+def check_subquery_head_case(case, ctx):
+    """rule head with a nested QUERY as an argument: V3(f1=x, f2=an(entity(y, or_(y == x.p, and_(z.a == x.a, y == z.p)))), f3=x);
+    the same rule object is evaluated three times: new instances every time, the same field values every time"""
+    from entity_query_language import entity, infer, an, let, or_, and_
+    from entity_query_language.symbolic import rule_mode
+    from entity_query_language.cache_data import enable_caching, disable_caching
+    world = D.build_world(case["world"])
+    m = H.labels_of(world)
+    ps, qs = world["P"], world["Q"]
+    ctx.cls("cls:special:subquery_head_argument")
+    ctx.cls("cls:caching_on" if case["caching"] else "cls:caching_off")
+    exp = sorted({(m[id(x)], m[id(y)]) for x in qs for y in ps
+                  if x.a > case["k"] and (y is x.p or any(z.a == x.a and z.p is y for z in qs))})
+    if len(exp) >= 2:
+        ctx.nontrivial()
+    (enable_caching if case["caching"] else disable_caching)()
+    try:
+        with rule_mode():
+            x, z, y = let(D.Q, qs), let(D.Q, qs), let(D.P, ps)
+            part = an(entity(y, or_(y == x.p, and_(z.a == x.a, y == z.p))))
+            rule = infer(entity(V3(f1=x, f2=part, f3=x), x.a > case["k"]))
+        seen = set()
+        keep = []
+        for rnd in range(3):
+            res = list(rule.evaluate())
+            keep.extend(res)
+            ctx.count("instances_checked", len(res))
+            got = sorted({(H.lab(m, r.f1), H.lab(m, r.f2)) for r in res if type(r) is V3})
+            if got != exp or any(type(r) is not V3 or r.f3 is not r.f1 for r in res):
+                ctx.fail("SUBQUERY_HEAD", {"evaluation": rnd + 1, "missing": sorted(set(exp) - set(got))[:6], "extra": sorted(set(got) - set(exp))[:6],
+                                           "n_expected": len(exp), "n_observed": len(got)})
+                return
+            if any(id(r) in seen for r in res):
+                ctx.fail("INSTANCE", {"problems": ["an instance of an earlier evaluation was handed out again"], "evaluation": rnd + 1})
+                return
+            seen.update(map(id, res))
+    except Exception as e:
+        import traceback
+        ctx.fail("EXC", f"{type(e).__name__}: {e}\n{traceback.format_exc()[-800:]}")
+    finally:
+        enable_caching()
+    ctx.sample({"subquery_head": True, "k": case["k"], "expected": exp[:4]})
+
+
 def check_case(case, ctx):
+    if case.get("subquery_head"):
+        return check_subquery_head_case(case, ctx)
     world = D.build_world(case["world"])
     tags = make_tags(case, world)
     exp = expected(case, world, tags)
@@ -277,7 +326,7 @@ def check_case(case, ctx):
 
 
 def classify(f, ctx):
-    if f["kind"] != "SET:missing":
+    if f["kind"] != "SET:missing" or f["case"].get("subquery_head"):
         return None
     case = f["case"]
     world = D.build_world(case["world"])
